@@ -28,3 +28,23 @@ func TestC01Corpus(t *testing.T) {
 	}
 	C01Corpus.RunJobs(t, []string{"19 corpus messages x 5 configurations x 2 start offsets: every-byte, every single cut, steps 2/3/5"}, jobs)
 }
+
+// TestC01Large: inputs of 65,534 / 65,535 / 30,000 bytes under a sparse schedule and as a single cut.
+func TestC01Large(t *testing.T) {
+	var jobs []func(emit func(CaseResume) bool)
+	for _, total := range []int{65535, 65534, 30000} {
+		for _, m := range largeMsgs(total) {
+			m := m
+			for _, cfg := range []Cfg{withCaps(scopeCfg(KMsg), -1, -1, -1), withFlags(withCaps(scopeCfg(KMsg), 700, 700, -1), 1, false), withFlags(withCaps(scopeCfg(KMsg), 3, 0, -1), 0, true)} {
+				cfg := cfg
+				jobs = append(jobs, func(emit func(CaseResume) bool) {
+					emit(CaseResume{Cfg: cfg, Buf: m, Sched: largeCuts(len(m)), Class: "in:large"})
+					for _, c := range []int{len(m) / 2, len(m) - 1, 15} {
+						emit(CaseResume{Cfg: cfg, Buf: m, Sched: []int{c, len(m)}, Fresh: true, Class: "in:large"})
+					}
+				})
+			}
+		}
+	}
+	C01Msg.RunJobs(t, nil, jobs)
+}
